@@ -121,7 +121,7 @@ func morePairs() []*pair {
 	for _, c := range []struct {
 		srv, cli int
 		quick    bool
-	}{{1, 1, true}, {2, 1, false}, {2, 2, false}} {
+	}{{1, 1, true}, {2, 1, false}, {1, 2, false}} {
 		cfg := proxy.Config{NumServers: c.srv, NumClients: c.cli, ExploreFail: true, ClientRun: true, PerfectFD: true}
 		out = append(out, &pair{
 			Name: fmt.Sprintf("proxy-checkedin-S%d-C%d", c.srv, c.cli), SpecDir: "systems/proxy", Module: "proxy", Quick: c.quick,
@@ -224,7 +224,7 @@ func morePairs() []*pair {
 		// bug_119 (procedure `inc`, `process (Server = "1")`): not comparable - the installed pcal leaves `self`
 		// unsubstituted in the call argument of a single-process `call inc0(self)`, so SANY rejects the
 		// translation of bug_119.tla.expectpcal ("Unknown operator: self"); call/return is covered by C04.
-		&pair{Name: "gotests-bug2_124", SpecDir: gen, Module: "bug2", Quick: true,
+		&pair{Name: "gotests-bug2_124", SpecDir: gen, Module: "bug2", Quick: false,
 			Prepare: retranslate(gen+"bug2_124.tla.expectpcal", "bug2", "", nil),
 			Cfg:     dflt + "CONSTANT NUM_NODES = 2\nCONSTANT BUFFER_SIZE = 1\nSPECIFICATION Spec\n",
 			Sys:     func() *ss.System { return gotests.Bug2(2, 1) }},
